@@ -113,6 +113,22 @@ for fn in ("_normalize_type", "_normalize_function", "_normalize_builtin", "_nor
     if fn in dm.functions:
         add("C07", dm.functions[fn], ("return",), why="registered tokenizer: reference token or the by-value fallback")
 
+# ---- C12: refusals of unsupported / out-of-bounds indices, and the identity shortcut of take ---------------
+for modname in ("dask_array.slicing._utils", "dask_array.slicing._basic", "dask_array.slicing._vindex", "dask_array.slicing._bool_index", "dask_array.slicing._blocks", "dask_array._shuffle"):
+    m = repo.module(modname)
+    if m is None:
+        continue
+    for f in m.functions.values():
+        if f.parent is not None:
+            continue
+        add("C12", f, ("raise",), pred=lambda s, ek, text: any(k in ek for k in ("IndexError", "NotImplementedError")) or "Index" in unparse(s),
+            why="an index that is out of bounds or unsupported raises instead of returning data")
+col = repo.mod("dask_array._collection").cls("Array")
+for meth in ("__getitem__", "_vindex", "_blocks"):
+    if meth in col.methods:
+        add("C12", col.methods[meth], ("raise",), why="Array-level refusal of an unsupported index")
+add("C12", repo.mod("dask_array.slicing._basic").func("take"), ("return", "raise"), why="take: the identity shortcut returns x only for an exact identity index; unknown sizes are refused")
+
 os.makedirs(os.path.dirname(FIXTURE), exist_ok=True)
 with open(FIXTURE, "w") as fh:
     json.dump(out, fh, indent=1, sort_keys=True)
